@@ -133,7 +133,9 @@ class World:
                         for c, v in reversed(list(zip(conds[:-1], vals[:-1]))): b = z3.If(c, v, b)
                         arr = z3.Store(arr, bv(off), z3.simplify(b))
                     base.objs[k].arr = arr
-            base.pc = base.pc[:L] + [z3.Or(conds)]
+            # the case distinction is exhaustive under the assumed preconditions (one query): then it need not burden the path condition
+            cover = z3.Or(conds)
+            base.pc = base.pc[:L] + ([] if not s.ex.feasible(base.pc[:L], z3.Not(cover)) else [cover])
         s.st = base; s.st.log = []
 
     def mk_support(s, name, grid, start=None, end=None, invariant=True):
